@@ -248,6 +248,8 @@ Heads ==
      RuleHead("PD", <<HeadArg("a", x), HeadArg("b", y), HeadArg("c", LitNone)>>),
      \* a constructor argument that is a sub-query: the argument ranges over the sub-query's solutions
      RuleHead("P", <<HeadArg("a", x), HeadArg("b", SubE(2, CmpC("ge", At(y, "n"), LitI(1)), "an"))>>),
+     \* an argument sub-query whose condition binds a variable that a later argument uses: the arguments stay joined
+     RuleHead("P", <<HeadArg("a", SubE(1, CmpC("eq", At(y, "ref"), x), "an")), HeadArg("b", y)>>),
      RuleHead("R", <<HeadArg("a", At(SubE(2, OrC(CmpC("eq", At(y, "m"), LitI(0)), CmpC("ge", At(y, "n"), LitI(2)), "fn"), "an"), "n")),
                      HeadArg("b", x)>>) >>
 
